@@ -1,6 +1,7 @@
 import GixModel.Lemmas.C29
 import GixModel.Lemmas.C29Total
 import GixModel.Lemmas.C29Writer
+import GixModel.Lemmas.C29Intr
 /-
 C29 — Packet-line framing is exact and never panics.  PROPERTY THEOREMS ONLY.
 
@@ -197,7 +198,6 @@ theorem sideband_demux (c : Consts) (hc : ConstsOk c) (ms : List Msg) (hv : ∀ 
   intro s0 out
   have hinv : SBInv c s0 ms rest := {
     handler := rfl
-    noInterrupt := rfl
     ready := ⟨rfl, rfl, hne⟩
     flat := hflat
     plain := by
@@ -208,7 +208,7 @@ theorem sideband_demux (c : Consts) (hc : ConstsOk c) (ms : List Msg) (hv : ∀ 
     valid := hv
     flushDelim := by rfl
     slice := Or.inl (Nat.le_refl _) }
-  have := drain_spec c hc ns hpos s0 ms rest [] hinv
+  have := drain_spec c hc ns hpos s0 ms rest [] hinv (by intro k hk; cases hk)
   obtain ⟨a, b, cc, d, e⟩ := this
   have hp : pendingOf s0 = [] := rfl
   simp only [hp, List.nil_append, List.append_nil] at b cc d
@@ -366,5 +366,62 @@ example (buf : Bytes) (h : buf.length = 65517) : ∃ chunks : List Bytes,
   exact ⟨chunks, e1, e2⟩
 example : writerWriteAll consts true [1, 2, 3] = ([48, 48, 48, 55, 1, 2, 3], true) ∧
     writerWriteAll consts false [104, 105] = ([48, 48, 48, 55, 104, 105, 10], true) := by decide +kernel
+
+/-! ### round 3: demultiplexing with a handler that interrupts -/
+
+/-- Messages `before ++ m :: after` (as `band_to_write` writes them) and a flush, read through
+`WithSidebands` whose progress handler answers `Interrupt` when it is handed `m` (its call number
+`|progressOf before|`) — for every chunking and every positive `read` buffer sizes: no panic; the
+sequence of reads ends with the "interrupted by user" error or runs out of calls; the bytes
+delivered are a prefix of the band-1 payloads BEFORE `m`; and when the error is returned exactly
+those payloads were delivered, the handler saw exactly the texts up to and including `m`, and
+nothing after `m` was touched (the reads stop there). With more `read` calls than data bytes
+before `m` the interrupt is reached. -/
+theorem sideband_interrupt (c : Consts) (hc : ConstsOk c) (before after : List Msg) (m : Msg)
+    (hv : ∀ x ∈ before ++ m :: after, x.Valid c) (hm : m.isData = false) (rest : Bytes)
+    (cs : List Bytes) (hne : NonEmptyChunks cs)
+    (hflat : cs.flatten = wireAll c ((before ++ m :: after).map Msg.line) ++ (wire c .flush ++ rest))
+    (ns : List Nat) (hpos : ∀ n ∈ ns, 0 < n) :
+    let s0 : SB := ⟨Reader.new c cs [.flush] false, true, 0, 0, [], some (progressOf before).length⟩
+    let out := drain c s0 ns []
+    (out.2.1 = .err .interrupted ∨ out.2.1 = .sizes) ∧
+    (∃ suf, dataOf before = out.1 ++ suf) ∧
+    (out.2.1 = .err .interrupted →
+      out.1 = dataOf before ∧ out.2.2.log = progressOf before ++ progressOf [m]) ∧
+    ((dataOf before).length < ns.length → out.2.1 = .err .interrupted) := by
+  intro s0 out
+  have hinv : SBInv c s0 (before ++ m :: after) rest := {
+    handler := rfl
+    ready := ⟨rfl, rfl, hne⟩
+    flat := hflat
+    plain := by
+      intro x hx
+      obtain ⟨h1, h2⟩ := hv x hx
+      refine ⟨⟨by simp [Msg.line], by simp [Msg.line]; omega⟩, ?_, by intro h; cases h⟩
+      rfl
+    valid := hv
+    flushDelim := by rfl
+    slice := Or.inl (Nat.le_refl _) }
+  obtain ⟨a, ⟨suf, b⟩, d, e⟩ := drain_intr_spec c hc ns hpos s0 before after m rest [] hinv hm (by simp [s0])
+  have hp : pendingOf s0 = [] := rfl
+  simp only [hp, List.nil_append, List.append_nil] at b d
+  refine ⟨a, ⟨suf, b⟩, ?_, ?_⟩
+  · intro h
+    obtain ⟨d1, d2⟩ := d h
+    exact ⟨d1, by simpa [s0] using d2⟩
+  · intro hmany
+    rcases a with a | a
+    · exact a
+    · have := e a
+      have hl := congrArg List.length b
+      simp only [List.length_append, List.length_nil] at hl this
+      omega
+
+-- non-vacuity: interrupting at the second progress message
+example :
+    let before := [Msg.data [1], .progress [97], .data [2]]
+    let m := Msg.error [98]
+    (∀ x ∈ before ++ m :: [Msg.data [3]], x.Valid consts) ∧ m.isData = false ∧
+      dataOf before = [1, 2] ∧ (progressOf before).length = 1 := by decide
 
 end GixModel.Props.C29
